@@ -45,13 +45,13 @@ CLAIMED = {
     "C15": ("runtime monitoring: boundary recorder on augment() for sampled/all subsets of overridden components; trajectory checker on Option.run_on; Option.run_on wrapped as called by SemiMarkovDecisionProcess.run_simulations to capture its own simulations, outcome distribution recomputed from the captures with the base discount; sub-task plan vs reference solution",
             "Held-on-K-executions over generated base MDPs, override subsets, options, step limits and seeds. Exploration: all-inputs/all-histories property.",
             "trusts mon/ref/mdp.py for the sub-task solution; roll-out step validity itself is C14's subject", "§4 C15"),
-    "C16": ("runtime monitoring: boundary recorder on MultichainPolicyIteration.plan_on gated on `converged`; oracle = reference V* (gamma<1) / optimal multichain gain from Puterman's LP via scipy HiGHS (gamma=1) and exact evaluation (value or gain) of the returned stochastic policy",
+    "C16": ("runtime monitoring: boundary recorder on MultichainPolicyIteration.plan_on gated on `converged`, source-free probe on the algorithm's own rank test (independent_row_indices: rows kept vs matrix_rank); oracle = reference V* (gamma<1) / optimal multichain gain from Puterman's LP via scipy HiGHS (gamma=1) and exact evaluation (value or gain) of the returned stochastic policy",
             "Held-on-K-executions over generated discounted and average-reward MDPs (unichain, multichain, with absorbing states). Exploration: all-inputs property.",
-            "trusts scipy.optimize.linprog and mon/ref/{mdp,gain}.py; tolerance 1e-6*scale (normal equations)", "§4 C16"),
+            "trusts scipy.optimize.linprog and mon/ref/{mdp,gain}.py; tolerance max(1e-6*scale, tie band 1e-5*max|Q|)/(1-gamma) (normal equations; the improvement step's own isclose test)", "§4 C16"),
     "C19": ("runtime monitoring: boundary recorder on entropy_regularized_policy_iteration and the planner wrapper, gated on `converged`; oracle = soft Bellman fixed-point clauses (one-step look-ahead, prior-weighted softmax, log-sum-exp) with tolerances derived from the coded convergence test, plus the quantitative hard/soft bracket against a reference value iteration",
             "Held-on-K-executions over generated tensors, weights (scalar / per-state), priors and flags. Exploration: all-inputs property.",
             "float64; weight tensor is float32 by construction (term 2*2^-24*max|q/w| in the tolerance)", "§4 C19"),
-    "C18": ("runtime monitoring: boundary recorder on TabularGridGame.next_state_dist/joint_rewards/is_terminal over all explored non-terminal states x all 25 joint actions of each generated layout, physical-constraint oracle computed from the generated layout; boundary recorder on DiscreteFactorTable &, |, *, marginalize, probs with a reference natural join on flattened nested rows",
+    "C18": ("runtime monitoring: boundary recorder on TabularGridGame.next_state_dist/joint_rewards/is_terminal over all explored non-terminal states x all 25 joint actions of each generated layout, physical-constraint oracle computed from the generated layout; boundary recorder on DiscreteFactorTable &, |, *, /, Z, normalize, marginalize / [] (callable and expression projections), probs and the read accessors with a reference natural join on flattened nested rows, and an operand-purity sentinel (rows and weights of both operands compared before / after, product recomputed at the end)",
             "Held-on-K-executions; per layout the (explored state, joint action) space is enumerated completely in the thorough tier (capped in quick). Exploration overall: layouts and tables are sampled.",
             "coordinates x=column, y=height-1-row (verified against the initial state); fences judged only for normalisation", "§4 C18"),
     "C20": ("runtime monitoring: boundary recorder on every model function over the whole state x action (x observation) space of each generated domain instance, array builders and a ValueIteration planning probe; oracle = normalisation / closure / finiteness clauses and a reference of the plain grid-world physics",
